@@ -134,7 +134,6 @@ PROPS = {
                        "operands (Verus, mathematical integers) and for an abstract inexact type R (contagion by congruence); "
                        "the facts assumed about R are checked at R = f32 by loop-free full-domain Kani harnesses.",
         "unverified": ["n-ary folds of the builtins + - * / (base.rs): iterator adapters over Value",
-                       "floor_remainder's 'always exact below 2^15' clause is decided by the thorough-tier Kani harness only",
                        "sqrt/exp/ln/... and `exact` (not part of the statement)"],
         "assumptions": ["R's operators are total functions of their operands (trait-level assumption real_ops_are_total_functions; true of f32)",
                         "Rust's f32 + - * / abs floor ceil are the IEEE-754 binary32 operations"],
